@@ -11,7 +11,7 @@ import Chartparse.Model.Basic
     Values are a plain (non-nested) inductive: lists, tuples and field lists are spines of `cons` / `field`, so that
     `DecidableEq` derives and every recursion below is structural. Lists are *values* (no aliasing); the translator refuses
     functions in which a mutated list could be reachable under two names. -/
-namespace Chartparse.Imp
+namespace Chartparse.PyImp
 open Chartparse
 
 inductive Val where
@@ -377,4 +377,4 @@ def run (ext : Ext) (fuel : Nat) (body : Stmt) (env : Env) : Option (M Val) :=
   | .cont _ => some (.error (.internal "continue outside loop"))
   | .fuel => none
 
-end Chartparse.Imp
+end Chartparse.PyImp
